@@ -46,6 +46,11 @@ func heapSym(name string) string {
 	return "H_" + strings.ReplaceAll(sanitize(strings.ReplaceAll(name, "$", "S")), "__", "_") + "_" + shortHash(name)[:4]
 }
 
+type heapWrite struct {
+	heap string
+	ref  string
+}
+
 type HeapInfo struct {
 	Name string
 	Sort Sort
@@ -82,6 +87,17 @@ func (x *Exec) heapSet(st *State, name string, t Term) {
 	if _, ok := x.heapSorts[name]; !ok {
 		x.heapInit(name, t.Sort)
 	}
+	// write log: which object of the heap is written (for the automatic loop frame)
+	ref := "*"
+	if strings.HasPrefix(t.S, "(store ") {
+		if args := splitSexprArgs(t.S); len(args) == 4 {
+			cur := x.heapGet(st, name, t.Sort)
+			if args[1] == cur.S {
+				ref = args[2]
+			}
+		}
+	}
+	x.writeLog = append(x.writeLog, heapWrite{name, ref})
 	st.heaps[name] = x.vc.define(heapSym(name), t)
 }
 
